@@ -77,6 +77,19 @@ def civilOp (toks : List String) : Option String :=
       | [y, m, d, hh, mm, ss, n] =>
         some (showCk (do let a ← Civil.civilNew t y m d hh mm ss; Civil.civilSub t a n) showFields)
       | _ => none
+  | "chain" :: t :: rest => do
+      let t ← parseTag t
+      match ← ints rest with
+      | [y, m, d, hh, mm, ss, n, k] =>
+        some (showCk (do
+          let a ← Civil.civilNew t y m d hh mm ss
+          let x ← Civil.civilAdd t a n
+          let r1 ← Civil.civilAdd t x k
+          let r2 ← Civil.civilSub t x n
+          let b ← Civil.civilAdd t a k
+          let df ← Civil.difference t x b
+          pure (r1, r2, df)) fun (r1, r2, df) => s!"{showFields r1} | {showFields r2} | {df}")
+      | _ => none
   | "diff" :: t :: rest => do
       let t ← parseTag t
       match ← ints rest with
